@@ -344,8 +344,9 @@ func equalShape(p *Prog, fi *FuncInfo, keyFn string) (bool, string) {
 			// must be on the true edge of param0 == param1
 			ok := false
 			for _, pred := range r.Block().Preds {
-				if ifi, isIf := pred.Instrs[len(pred.Instrs)-1].(*ssa.If); isIf && pred.Succs[0] == r.Block() && len(r.Block().Preds) == 1 {
-					if b, isB := ifi.Cond.(*ssa.BinOp); isB && b.Op == token.EQL {
+				if ifi, isIf := pred.Instrs[len(pred.Instrs)-1].(*ssa.If); isIf && len(r.Block().Preds) == 1 {
+					// the true edge of a == b, or the false edge of a != b
+					if b, isB := ifi.Cond.(*ssa.BinOp); isB && ((b.Op == token.EQL && pred.Succs[0] == r.Block()) || (b.Op == token.NEQ && pred.Succs[1] == r.Block())) {
 						if (b.X == f.Params[0] && b.Y == f.Params[1]) || (b.X == f.Params[1] && b.Y == f.Params[0]) {
 							ok = true
 						}
